@@ -19,6 +19,8 @@ MCall(e, m, arg) == [k |-> "mcall", e |-> e, m |-> m, arg |-> arg, kw |-> FALSE]
 MCallKw(e, m, arg) == [k |-> "mcall", e |-> e, m |-> m, arg |-> arg, kw |-> TRUE]      \* x.m(k = arg)
 Flat(j)     == [k |-> "flat", j |-> j]
 Concat(e)   == [k |-> "concat", e |-> e]
+SubQ(desc, sel, c) == [k |-> "subq", desc |-> desc, sel |-> sel, c |-> c]     \* a sub-query used as a condition
+SubE(i, c, quant)  == [k |-> "sub", i |-> i, c |-> c, quant |-> quant]        \* a sub-query used as an operand
 
 CmpC(op, l, r)    == [k |-> "cmp", op |-> op, l |-> l, r |-> r]
 InC(item, cont, form) == [k |-> "in", item |-> item, cont |-> cont, form |-> form]
@@ -128,6 +130,16 @@ LeavesG3 ==
      CmpC("eq", At(x, "s"), At(u, "s")),
      PredC("p_lt", <<At(x, "n"), At(u, "m")>>, "fn"),
      CmpC("gt", At(u, "n"), At(x, "m")) >>
+\* a second free variable y = V(3) that occurs only under the quantifier (the rooms that have a worker who masters
+\* every requirement): leaves relating y to x, y to u, and y alone
+LeavesG3y ==
+  LET x == V(1)  u == V(2)  y == V(3) IN
+  << CmpC("eq", At(y, "ref"), x),
+     InC(At(u, "n"), At(y, "items"), "in_"),
+     CmpC("ge", At(y, "n"), At(u, "n")),
+     CmpC("eq", At(y, "m"), At(x, "m")),
+     InC(At(u, "m"), At(y, "items"), "contains"),
+     CmpC("ne", At(y, "n"), At(x, "n")) >>
 \* leaves over the free variable only, for conjunction with the quantified part
 OuterG3 == << CmpC("ge", At(V(1), "n"), LitI(1)), CmpC("eq", At(V(1), "m"), LitI(0)), Truth(At(V(1), "items")),
               CmpC("ne", At(V(1), "s"), LitS(<<>>)) >>
@@ -158,13 +170,16 @@ LeavesG7c ==
      InC(At(y, "t"), Concat(At(x, "pairs")), "in_"),        \* inner elements that are themselves iterable stay whole
      \* concatenate(flatten(x.pairs)): the flattened elements are themselves collections, their elements are joined
      InC(At(y, "n"), Concat(Flat(1)), "in_"),
-     InC(At(y, "m"), Concat(Flat(1)), "contains") >>
+     InC(At(y, "m"), Concat(Flat(1)), "contains"),
+     \* the aggregated parents are the solutions of a sub-query (with a disjunction inside), the candidate is bound first
+     AndC(CmpC("ge", At(y, "n"), LitI(0)),
+          InC(At(y, "n"), Concat(At(SubE(1, OrC(CmpC("ge", At(x, "n"), LitI(2)), CmpC("eq", At(x, "m"), LitI(0)), "fn"), "an"), "items")), "in_"), "fn"),
+     AndC(CmpC("ne", At(y, "s"), LitS(<<>>)),
+          InC(y, Concat(At(SubE(1, OrC(CmpC("eq", At(x, "n"), LitI(0)), CmpC("ge", At(x, "m"), LitI(1)), "fn"), "an"), "refs")), "in_"), "fn") >>
   \o Some(CoreLeaves(y), 4)
 
 (* ---- G6: sub-queries.  a sub-query over x or over (x, y) used as a     ----*)
 (* ---- condition, or as an operand standing for its selected variable    ----*)
-SubQ(desc, sel, c) == [k |-> "subq", desc |-> desc, sel |-> sel, c |-> c]
-SubE(i, c, quant)  == [k |-> "sub", i |-> i, c |-> c, quant |-> quant]
 InnerG6 ==   \* conditions that sub-queries are made of
   LET x == V(1)  y == V(2) IN
   << CmpC("ge", At(x, "n"), LitI(1)), CmpC("eq", At(x, "m"), LitI(0)), CmpC("lt", At(x, "n"), At(x, "m")),
@@ -218,7 +233,11 @@ Heads ==
      RuleHead("PF", <<HeadArg("a", At(x, "n")), HeadArg("b", y)>>),
      RuleHead("PF", <<HeadArg("a", At(y, "s")), HeadArg("b", x), HeadArg("c", LitI(1))>>),
      \* a field with a non-None default given explicitly as None
-     RuleHead("PD", <<HeadArg("a", x), HeadArg("b", y), HeadArg("c", LitNone)>>) >>
+     RuleHead("PD", <<HeadArg("a", x), HeadArg("b", y), HeadArg("c", LitNone)>>),
+     \* a constructor argument that is a sub-query: the argument ranges over the sub-query's solutions
+     RuleHead("P", <<HeadArg("a", x), HeadArg("b", SubE(2, CmpC("ge", At(y, "n"), LitI(1)), "an"))>>),
+     RuleHead("R", <<HeadArg("a", At(SubE(2, OrC(CmpC("eq", At(y, "m"), LitI(0)), CmpC("ge", At(y, "n"), LitI(2)), "fn"), "an"), "n")),
+                     HeadArg("b", x)>>) >>
 
 (* ---- C18: meaning-preserving rewrites, each applied at every position it fits ----*)
 MirrorOp(op) == CASE op = "lt" -> "gt" [] op = "gt" -> "lt" [] op = "le" -> "ge" [] op = "ge" -> "le" [] OTHER -> op
